@@ -876,6 +876,10 @@ func (ex *Exec) specCall(call *ast.CallExpr, info *types.Info, env *SpecEnv, pc 
 	case "sinkctx":
 		// sinkctx(): the context passed to the last call of a `sink` function field
 		return IfaceV{env.st.get("ctxmeta|sinkctx.tag", SBV(16)), env.st.get("ctxmeta|sinkctx.pay", SBV(64))}
+	case "ctxdone":
+		// ctxdone(ctx): the channel ctx.Done() returns is closed
+		iv := arg(0).(IfaceV)
+		return BoolV{Select(env.st.get("chclosed", SArr(SRef, SBool)), ctxDoneRef(iv))}
 	case "ctxtimeout":
 		// ctxtimeout(ctx): the duration ctx was created with by context.WithTimeout
 		iv := arg(0).(IfaceV)
